@@ -44,8 +44,10 @@ def mkself(it, st):
     hs = it.alloc(st, SeqSym('front', segty), 'front')
     n1 = ('len', ('seq', 'front'))
     hl = it.alloc(st, it.materialize(segty, 'last', st), 'last')
-    roles = ROLES.get('idx') or {'front': 0, 'tail': 1, 'last': 2, 'L': 3}
-    vals = {'front': SliceRef(hs, (), ('ic', 0), n1), 'tail': SliceRef(hs, (), sym('t'), n1), 'last': Ref(hl, ()), 'L': sym('L')}
+    roles = dict(ROLES.get('idx') or {'front': 0, 'tail': 1, 'last': 2, 'L': 3})
+    index_cursor = roles.pop('repr', 'slice') == 'index'
+    vals = {'front': SliceRef(hs, (), ('ic', 0), n1), 'tail': sym('t') if index_cursor else SliceRef(hs, (), sym('t'), n1),
+            'last': Ref(hl, ()), 'L': sym('L')}
     fields = [None] * 4
     for role, i in roles.items():
         fields[i] = vals[role]
@@ -67,6 +69,10 @@ def field_roles(cx):
     f64s = [i for i, f in enumerate(fl) if f['ty'].get('k') == 'float']
     refs = [i for i, f in enumerate(fl) if f['ty'].get('k') == 'ref' and f['ty']['ty'].get('k') == 'adt']
     slices = [i for i, f in enumerate(fl) if f['ty'].get('k') == 'ref' and f['ty']['ty'].get('k') == 'slice']
+    ints = [i for i, f in enumerate(fl) if f['ty'].get('k') in ('uint', 'int')]
+    if len(f64s) == 1 and len(refs) == 1 and len(slices) == 1 and len(ints) == 1:
+        # the cursor kept as an index into the front: tail = front[cursor..]
+        return {'front': slices[0], 'tail': ints[0], 'last': refs[0], 'L': f64s[0], 'repr': 'index'}
     if len(f64s) != 1 or len(refs) != 1 or len(slices) != 2:
         return None
     written = set()
@@ -140,7 +146,11 @@ def check(cx):
             rep.ob('repr', inst, False, 'new() does not return the evaluator struct', fn=inst, file=file, line=line)
             return
         front, tail, last, L0 = r.fields[iF], r.fields[iT], r.fields[iLst], r.fields[iLE]
-        ok = isinstance(front, SliceRef) and isinstance(tail, SliceRef) and tail == front
+        index_cursor = roles.get('repr') == 'index'
+        if index_cursor:
+            ok = isinstance(front, SliceRef) and tail == ('ic', 0)
+        else:
+            ok = isinstance(front, SliceRef) and isinstance(tail, SliceRef) and tail == front
         rep.ob('repr', inst, ok, 'tail₀ = all_segments_front', fn=inst, file=file, line=line,
                msg='initial tail is not the whole of all_segments_front (suffix representation broken)')
         ok2 = isinstance(front, SliceRef) and front.start == ('ic', 0) and nf(front.end).equals(nf(n) - nf(('ic', 1))) and \
@@ -178,6 +188,10 @@ def check(cx):
         ret = subst_term(simp(a.ret, nonnan), repl)
         sv = it.read(st, a.args[0].root, ())
         tail2 = sv.fields[iT]
+        front_now = sv.fields[iF]
+        if roles.get('repr') == 'index' and isinstance(tail2, tuple) and isinstance(front_now, SliceRef):
+            # the cursor is an index: the tail it stands for is front[cursor..]
+            tail2 = SliceRef(front_now.root, front_now.path, tail2, front_now.end, False)
         le2 = subst_term(simp(sv.fields[iLE], nonnan), repl)
         front2 = sv.fields[iF]
         ok_repr = isinstance(tail2, SliceRef) and isinstance(front2, SliceRef) and tail2.root == front2.root and \
@@ -273,39 +287,46 @@ def check(cx):
             m = {subst_term(ev['idx'], repl): kidx, subst_term(ev['found'], repl): found}
             tb = subst_term(tstart, m)
             spm = subst_term(sp, m)
+            from ..models import recanon
+
+            def rc(t_):
+                return recanon(it, t_) if isinstance(t_, tuple) else t_
+            sp_by = {True: rc(simp(spm, {found: True})), False: rc(simp(spm, {found: False}))}
             if forward:
                 # found ⇒ t + k* < n1 (k* indexes front[t..n1))
                 tf_want = nf(t) + nf(kidx)
-                t_found = simp(tb, {found: True})
-                t_none = simp(tb, {found: False})
+                t_found = rc(simp(tb, {found: True}))
+                t_none = rc(simp(tb, {found: False}))
                 if not (isinstance(t_found, tuple) and nf(t_found).equals(tf_want)):
                     probs.append('found ⇒ tail′ starts at %s, expected t + (first index with end > x)' % term_str(t_found)[:160])
                 if not (isinstance(t_none, tuple) and nf(t_none).equals(nf(n1))):
                     probs.append('not found ⇒ tail′ starts at %s, expected len(front) (empty tail)' % term_str(t_none)[:120])
                 if isinstance(t_found, tuple):
-                    sp1 = simp(spm, mdict({found: True}, {('icmp', 'lt', t_found, n1): True, ('icmp', 'ge', t_found, n1): False,
+                    sp1 = simp(sp_by[True], mdict({found: True}, {('icmp', 'lt', t_found, n1): True, ('icmp', 'ge', t_found, n1): False,
                                                          ('icmp', 'ne', n1, ('ic', 0)): True, ('icmp', 'eq', n1, ('ic', 0)): False}))
                     ok1 = isinstance(sp1, tuple) and sp1[0] == 'elem' and sp1[1] == FS and sp1[3] == 'poly' and nf(sp1[2]).equals(tf_want)
                     if not ok1:
                         probs.append('found ⇒ selects %s, expected the first segment of the new tail' % term_str(sp1)[:140])
                 if isinstance(t_none, tuple):
-                    sp0 = simp(spm, mdict({found: False}, {('icmp', 'lt', t_none, n1): False, ('icmp', 'ge', t_none, n1): True}))
+                    sp0 = simp(sp_by[False], mdict({found: False}, {('icmp', 'lt', t_none, n1): False, ('icmp', 'ge', t_none, n1): True}))
                     if sp0 != sym('last.poly'):
                         probs.append('tail exhausted ⇒ selects %s, expected the last segment' % term_str(sp0)[:140])
                 return probs, ev
             # index + 1 ≤ n1 because index < t ≤ n1
             kp1 = it.iadd(kidx, ('ic', 1))
-            t_found = simp(tb, {found: True, ('icmp', 'le', kp1, n1): True, ('icmp', 'gt', kp1, n1): False})
-            t_none = simp(tb, {found: False})
+            t_found = rc(simp(tb, {found: True, ('icmp', 'le', kp1, n1): True, ('icmp', 'gt', kp1, n1): False}))
+            t_none = rc(simp(tb, {found: False}))
             if not (isinstance(t_found, tuple) and nf(t_found).equals(nf(kidx) + nf(('ic', 1)))):
                 probs.append('found ⇒ tail′ starts at %s, expected (last index with end ≤ x) + 1' % term_str(t_found)[:160])
-            if t_none != ('ic', 0):
+            if not (isinstance(t_none, tuple) and nf(t_none).is_zero()):
                 probs.append('not found ⇒ tail′ starts at %s, expected 0 (whole front)' % term_str(t_none)[:120])
+            elif t_none != ('ic', 0):
+                t_none = ('ic', 0)
             for nm, tv, asm in (('found', t_found, {found: True, ('icmp', 'le', kp1, n1): True}), ('none', t_none, {found: False})):
                 if not isinstance(tv, tuple):
                     continue
-                sp1 = simp(spm, mdict(asm, {('icmp', 'lt', tv, n1): True, ('icmp', 'ge', tv, n1): False, ('icmp', 'ne', n1, ('ic', 0)): True, ('icmp', 'eq', n1, ('ic', 0)): False}))
-                sp0 = simp(spm, mdict(asm, {('icmp', 'lt', tv, n1): False, ('icmp', 'ge', tv, n1): True, ('icmp', 'ne', n1, ('ic', 0)): False, ('icmp', 'eq', n1, ('ic', 0)): True}))
+                sp1 = simp(sp_by[asm[found]], mdict(asm, {('icmp', 'lt', tv, n1): True, ('icmp', 'ge', tv, n1): False, ('icmp', 'ne', n1, ('ic', 0)): True, ('icmp', 'eq', n1, ('ic', 0)): False}))
+                sp0 = simp(sp_by[asm[found]], mdict(asm, {('icmp', 'lt', tv, n1): False, ('icmp', 'ge', tv, n1): True, ('icmp', 'ne', n1, ('ic', 0)): False, ('icmp', 'eq', n1, ('ic', 0)): True}))
                 ok1 = isinstance(sp1, tuple) and sp1[0] == 'elem' and sp1[1] == FS and sp1[3] == 'poly' and nf(sp1[2]).equals(nf(tv))
                 if not ok1:
                     probs.append('%s, tail′ non-empty ⇒ selects %s, expected front[tail′ start]' % (nm, term_str(sp1)[:140]))
